@@ -317,13 +317,14 @@ func (c *FnCtx) axiom(f string) {
 	c.decls = append(c.decls, "(assert "+f+")")
 }
 
+// fnID: function identities are negative integers, disjoint from object references (which are >= 0)
 func (e *Engine) fnID(fn *ssa.Function) string {
 	if id, ok := e.fnids[fn]; ok {
-		return fmt.Sprint(id)
+		return fmt.Sprintf("(- %d)", id)
 	}
 	id := len(e.fnids) + 1000
 	e.fnids[fn] = id
-	return fmt.Sprint(id)
+	return fmt.Sprintf("(- %d)", id)
 }
 
 func (e *Engine) policyFor(key string) *policyInfo {
